@@ -404,14 +404,14 @@ def sqrt(I, x):
     st = I.st
     key = ("sqrt", z.get_id())
     if key in st.ghost:
-        return st.ghost[key]
+        return st.ghost[key][0]
     r = st.fresh("sqrt", z3.RealSort())
     if st.branch(z < 0, "sqrt-negative"):
         st.event("np-sqrt-negative")
         return NAN
     st.assume(z3.And(r >= 0, r * r == z))
     v = SV(r, "real")
-    st.ghost[key] = v
+    st.ghost[key] = (v, z)
     return v
 
 
@@ -424,11 +424,11 @@ def sqrt_sumsq(I, xs):
     z = to_z3(ssq, "real")
     key = ("sqrt", z.get_id())
     if key in st.ghost:
-        return st.ghost[key]
+        return st.ghost[key][0]
     r = st.fresh("norm", z3.RealSort())
     st.assume(z3.And(r >= 0, r * r == z))
     v = SV(r, "real")
-    st.ghost[key] = v
+    st.ghost[key] = (v, z)     # keep the term alive: z3 ast ids are reused after garbage collection
     return v
 
 
